@@ -1213,7 +1213,8 @@ def supervisor_runs(res, exe, wd, tier, replay_case=None):
         % (regs[0], regs[1], regs[2], regs[3], regs[4], regs[5], regs[7], len(c16bad), sum(len(t) for t in aux.values()), time.time() - t0))
     if replay_case is not None:
         return {"bad": c16bad}
-    if not res.tool_errors and (regs[3] == 0 or regs[4] == 0 or regs[5] == 0 or regs[6] == 0 or regs[7] != regs[0]):
+    # (what must have been exercised whatever the supervisor under test does with it: devices were opened and workers were told to end)
+    if not res.tool_errors and (regs[0] == 0 or regs[2] == 0 or regs[3] == 0 or regs[4] == 0):
         res.tool_errors.append("vacuous supervisor runs: registers %s" % regs)
     for t, cl in c16bad[:5]:
         res.violation(",".join(cl), {"engine": "E3-supervisor", "case": by_id.get(t)})
